@@ -105,7 +105,7 @@ func genData(r *Rng, tier string) Sx {
 	case 5:
 		return B(r.Bytes(r.Range(300, 3000)))
 	case 6:
-		if r.Chance(1, 4) {
+		if r.Chance(1, 12) {
 			return B(r.Bytes(r.Range(65530, 65540)))
 		}
 		return B(r.Bytes(r.Range(1, 40)))
@@ -203,14 +203,14 @@ func genSidecar(r *Rng, tier string, allowBig bool) Sx {
 		return L()
 	}
 	ver := uint64(r.Intn(2))
-	if r.Chance(1, 12) {
+	if r.Chance(1, 16) {
 		ver = uint64(r.Range(2, 255))
 	}
 	nb := 0
 	if allowBig {
-		nb = r.Range(1, 3)
-		if r.Chance(1, 3) {
-			nb = 1
+		nb = 1
+		if tier == "thorough" && r.Chance(1, 3) {
+			nb = r.Range(2, 3)
 		}
 	}
 	blobs := make([]Sx, nb)
@@ -489,9 +489,9 @@ func elemOf(bin []byte) []byte {
 
 func gen(r0 *Rng, tier string, emit func(c Sx)) {
 	r := NewRng(r0.U64())
-	nTx, nBig := 700, 5
+	nTx, nBig := 700, 3
 	if tier == "thorough" {
-		nTx, nBig = 12000, 60
+		nTx, nBig = 12000, 40
 	}
 	raw := func(b []byte) { emit(L(I(0), B(b))) }
 
@@ -560,7 +560,7 @@ func gen(r0 *Rng, tier string, emit func(c Sx)) {
 			}
 		}
 		emit(L(I(1), I(int64(ty)), fields, sc))
-		if i%2 == 0 {
+		if i%3 == 0 {
 			func() {
 				defer func() { recover() }()
 				bin, err := buildTx(ty, fields, sc).MarshalBinary()
@@ -579,6 +579,66 @@ func gen(r0 *Rng, tier string, emit func(c Sx)) {
 				raw(bin[:len(bin)-1])
 			}()
 		}
+	}
+	// targeted tampering with the sidecar wrapper of zero-blob network encodings
+	for i := 0; i < nTx/6; i++ {
+		var ty int
+		var fields, sc Sx
+		for {
+			ty, fields, sc = genTx(r, tier, false)
+			if ty == 3 && len(AsList(sc)) > 0 {
+				break
+			}
+		}
+		func() {
+			defer func() { recover() }()
+			bin, err := buildTx(ty, fields, sc).MarshalBinary()
+			if err != nil {
+				return
+			}
+			root, _, ok := parseNode(bin[1:])
+			if !ok || len(root.kids) < 4 {
+				return
+			}
+			switch r.Intn(8) {
+			case 0: // version value
+				vals := [][]byte{nil, {0}, {1}, {2}, {0x7f}, {0x80}, {0xff}, {1, 0}, {0, 1}}
+				v := &node{data: vals[r.Intn(len(vals))]}
+				if len(root.kids) == 5 {
+					root.kids[1] = v
+				} else {
+					root.kids = append([]*node{root.kids[0], v}, root.kids[1:]...)
+				}
+			case 1: // drop the version / one of the lists
+				i := r.Range(1, len(root.kids)-1)
+				root.kids = append(root.kids[:i:i], root.kids[i+1:]...)
+			case 2: // the tx part becomes a string (canonical form + extras) or an empty list
+				if r.Bool() {
+					root.kids[0] = &node{list: true}
+				} else {
+					root.kids[0] = &node{data: root.kids[0].enc()}
+				}
+			case 3: // wrong element sizes in commitments / proofs
+				k := root.kids[len(root.kids)-1-r.Intn(2)]
+				k.kids = append(k.kids, &node{data: r.Bytes(r.Range(46, 50))})
+			case 4: // a short fake blob
+				k := root.kids[len(root.kids)-3]
+				k.kids = append(k.kids, &node{data: r.Bytes(r.Range(0, 64))})
+			case 5: // extra trailing element in the wrapper
+				root.kids = append(root.kids, &node{list: r.Bool()})
+			case 6: // lists replaced by strings
+				k := root.kids[r.Range(1, len(root.kids)-1)]
+				k.list, k.kids, k.data = false, nil, nil
+			default: // mutate inside the inner tx
+				mutateTree(r, root.kids[0])
+			}
+			m := append([]byte{3}, root.enc()...)
+			if r.Bool() {
+				raw(m)
+			} else {
+				raw(elemOf(m))
+			}
+		}()
 	}
 	// random bytes
 	for i := 0; i < nTx/4; i++ {
